@@ -416,7 +416,9 @@ impl<H: Hasher> Deserializable for BatchMerkleProof<H> {
         let depth = source.read_u8()?;
         let num_node_vectors = source.read_usize()?;
 
-        let mut nodes = Vec::with_capacity(num_node_vectors);
+        // the number of vectors comes from untrusted input and must not be used to reserve memory
+        // unchecked (a huge value would abort the process before any data has been read)
+        let mut nodes = Vec::with_capacity(num_node_vectors.min(1024));
         for _ in 0..num_node_vectors {
             // read the digests and add them to the node vector
             let digests = Vec::<_>::read_from(source)?;
